@@ -27,7 +27,9 @@
 EXTENDS Naturals, Sequences, FiniteSets
 
 Interrupts == {"kbd", "sysexit", "gevent"}
-IsFault(f) == f \notin {"none", "eintr", "again", "detached"}
+(* "nowhere": a connect to an address the name no longer points at -- nobody answers there, but that is the client's *)
+(* stale knowledge, not a fault of the environment: the call had every chance to work                              *)
+IsFault(f) == f \notin {"none", "eintr", "again", "detached", "nowhere"}
 
 CMonInit(h) == [h |-> h, socks |-> <<>>, phase |-> "idle", now |-> 0,
                 c |-> 0, kind |-> "none", ro |-> FALSE, start |-> 0,
@@ -158,6 +160,7 @@ CMonEffect(m, ev) ==
          IF ev.fault = "none" /\ Known(m, ev.s)
            THEN [m EXCEPT !.socks = [m.socks EXCEPT ![ev.s].st = "connected", ![ev.s].srv = ev.srv,
                                                     ![ev.s].last = m.start]]
+           ELSE IF ev.fault = "nowhere" THEN [m EXCEPT !.socks = Mark(m, ev.s, TRUE)]
            ELSE [m EXCEPT !.socks = Mark(m, ev.s, TRUE), !.hard = TRUE,
                           !.intr = m.intr \/ ev.fault \in Interrupts]
     [] ev.e = "send" ->
